@@ -737,8 +737,14 @@ def c18_doc(c):
         else:
             last = "@pytest.mark.usefixtures("
         extra = ["def %s(%s):" % (name, params), "    pass"] if role == "inc_usefixtures_open" else []
-        lines = head + deco + [last] + extra
-        li = len(head) + len(deco)
+        if c.get("above"):
+            # the new function is typed ABOVE the file's other fixtures (its lines push them down: the line numbers of the last
+            # version that parsed no longer fit the text)
+            lines = head[:5] + deco + [last] + extra + ["", ""] + head[5:]
+            li = 5 + len(deco)
+        else:
+            lines = head + deco + [last] + extra
+            li = len(head) + len(deco)
         col = len(last) if role != "inc_no_colon" and role != "inc_no_body" else last.index("(") + 1
         cur = (li, col)
         return "\n".join(lines) + "\n", cur[0], cur[1]
@@ -783,6 +789,8 @@ def check_c18(tier):
         # a sibling document in the same directory that OVERRIDES a conftest fixture locally
         with open(os.path.join(root, "test_sib.py"), "w") as fh:
             fh.write(SIB_18)
+        if c["role"].startswith("inc_") and n % 2 == 1 and c.get("host") != "plugin":
+            c = dict(c, above=True)
         text, line, col = c18_doc(c)
         tpath = os.path.join(root, "test_e.py")
         if c.get("host") == "plugin":
